@@ -1,10 +1,15 @@
 package harness
 
 import (
+	"errors"
 	"fmt"
+	"net"
+	"net/http"
+	"reflect"
 	"sort"
 	"strings"
 	"time"
+	"unsafe"
 
 	"github.com/zishang520/engine.io/v2/engine"
 	"github.com/zishang520/engine.io/v2/transports"
@@ -453,6 +458,12 @@ var _ = sort.Strings
 // C12 shutdown: Server.Close / closing the HTTP server the engine is attached to, with n
 // sessions of mixed transports (default schedule: the order in which the client table is
 // ranged is not owned by the scheduler).
+type failingListener struct{}
+
+func (failingListener) Accept() (net.Conn, error) { return nil, errors.New("no network here") }
+func (failingListener) Close() error              { return nil }
+func (failingListener) Addr() net.Addr            { return &net.TCPAddr{} }
+
 func init() {
 	register("C12", "shutdown", false, func(c *Ctx) {
 		kinds := []string{"polling-pending", "polling-idle", "polling-buffered", "websocket", "webtransport"}
@@ -464,6 +475,20 @@ func init() {
 			c.Once(id, func(x *vsched.Exec) {
 				o := sessOpts()
 				hs := types.NewWebServer(nil)
+				// a HTTP server of the kind Listen registers (never started: no real network in the bubble). Shutdown of a
+				// started one waits for its active requests, i.e. for the pending polls only the engine can answer: the
+				// sessions have to be told before the HTTP servers are shut down.
+				httpSrv := &http.Server{}
+				if f := reflect.ValueOf(hs).Elem().FieldByName("servers"); f.IsValid() {
+					pp := (**types.Slice[any])(unsafe.Pointer(f.UnsafeAddr()))
+					(*pp).Push(httpSrv)
+				}
+				shutBeforeClose := false
+				hs.On("close", func(...any) {
+					if err := httpSrv.Serve(failingListener{}); err == http.ErrServerClosed {
+						shutBeforeClose = true
+					}
+				})
 				srv := engine.Attach(hs, o)
 				w := &World{X: x, ByID: map[string]*SockRec{}, actions: map[string]int{}, PostMsgs: map[*Resp][]string{}, EpilogueFrom: 1 << 30, Srv: srv, Handler: hs}
 				w.hook()
@@ -521,6 +546,9 @@ func init() {
 				fp := fmt.Sprintf("[%s n=%d]", how, len(set))
 				if !done {
 					x.Fail("shutdown-blocked%s: the call did not return: %v (%s)", fp, x.Blocked(), id)
+				}
+				if shutBeforeClose {
+					x.Fail("shutdown-order%s: the HTTP servers had been shut down before the close event told the engine to close its sessions (Shutdown waits for the pending polls, which only the engine can answer) (%s)", fp, id)
 				}
 				for i, s := range w.Socks {
 					if cr := s.CloseReasons(); len(cr) != 1 {
